@@ -185,6 +185,7 @@ fn main() {
     let pristine: Vec<Emf> = cfgs.iter().map(|c| c.build()).collect();
     let partners: Vec<Emf> = cfgs.iter().map(|c| partner(c).build()).collect();
     let sd = seeds(tier, &cfgs);
+    let mut scaled_cases = 0u64;
     let mut states = par::for_each_index(sd.len() as u64, 1, St::default, |st, i| {
         let seed = &sd[i as usize];
         for_each_neighbour(seed, tier, |entry| {
@@ -205,6 +206,22 @@ fn main() {
             }
         }));
     }
+    // entries scaled past the small alphabets (dozens to hundreds of dimension sets / metrics /
+    // strings, with and without one duplicate)
+    {
+        let mut st = St::default();
+        // (the long-lived formatters are keyed by the address of their pristine copy: all of
+        // them stay alive, at distinct addresses, for the whole pass)
+        let scfgs = scaled_configs();
+        let ps: Vec<(Emf, Emf)> = scfgs.iter().map(|c| (c.build(), partner(c).build())).collect();
+        for (cfg, (p, pp)) in scfgs.iter().zip(&ps) {
+            for (_name, entry) in scaled_entries(cfg, tier) {
+                check(&mut st, cfg, p, pp, &entry);
+                scaled_cases += 1;
+            }
+        }
+        states.push(st);
+    }
     let mut classes: BTreeMap<Vec<Defect>, u64> = BTreeMap::new();
     let (mut cases, mut mr, mut va, mut tc, mut un, mut nv) = (0, 0, 0, 0, 0, 0);
     let mut reused_total = 0;
@@ -219,6 +236,7 @@ fn main() {
     rep.set("evaluations", cases);
     rep.set("distinct_nontrivial", classes.len() as u64);
     rep.set("rule", "the <=2-edit neighbourhood (insert/delete/swap over the op alphabet in emfx/mutate.rs) of valid base entries plus the valid layers of C03, under every configuration of emfx/gen_.rs; each entry is classified from scratch by reference::defects (written from the property statement); distinct = distinct sets of simultaneous defects (the empty set = valid)");
+    rep.set("scaled_entry_cases", scaled_cases);
     rep.set("exhaustive", true);
     rep.set("malformed_and_rejected", mr);
     rep.set("valid_and_accepted", va);
